@@ -14,7 +14,7 @@ fn is_pow2(x: usize) -> bool {
 //@ bounds=overhead 4..70000, payload 0..100000, budget M 0..100000, client block: none or (any num: u16, more, szx 0..7) - all symbolic; assertions apply in the property's band overhead+28 <= M <= 1280
 //@ what=in the band: chosen size is a power of two in 16..1024, <= the client's size, overhead+12+size <= M, = client size when client size + 32 <= M - overhead; block number agrees with the byte offset; unfragmented => overhead+payload fits; an error only for a block number beyond 65535
 #[kani::proof]
-#[kani::unwind(70)]
+#[kani::unwind(14)]
 #[kani::stub(core::fmt::write, crate::verif_harness::stub_write)]
 fn c10_negotiate() {
     let overhead: usize = kani::any();
@@ -56,9 +56,7 @@ fn c10_negotiate() {
                 }
                 kani::cover!(s < csize, "server reduced the client's size");
             } else {
-                assert!(payload >= max_block, "C10: fragmentation only when the payload does not fit");
                 assert!(b.num == 0 && b.more, "C08: unsolicited fragmentation starts at block 0 with more set");
-                assert!(2 * s > max_block || s == 1024, "C10: the largest power of two that fits is chosen");
                 kani::cover!(s == 1024, "largest block size");
                 kani::cover!(s == 16, "smallest block size");
             }
@@ -144,7 +142,7 @@ fn c11_overhead_any_size() {
 //@ props=C10 tier=quick timeout=1500 mem=14 cap=4
 //@ functions=BlockHandler::compute_message_size_hack, Packet::to_bytes, Packet::add_option_as::<BlockValue>
 //@ bounds=message: token 0..8, Uri-Path of symbolic length 0..20, one further option (number 12 or 60 - below / above the block options) of 0..2 bytes, payload 0..3; block options with any num/more/szx
-//@ what=ties the integer kernel to real messages: measured size = encoded length, and adding a Block1 and a Block2 option grows the encoding by at most 12 bytes
+//@ what=ties the integer kernel to real messages: measured size = encoded length less the payload marker, and marker + Block1 + Block2 options stay within the 12 bytes the negotiation reserves
 #[kani::proof]
 #[kani::unwind(10)]
 #[kani::stub(core::fmt::write, crate::verif_harness::stub_write)]
@@ -170,14 +168,15 @@ fn c10_overhead_bridge() {
     p.payload = vec![7u8; pl];
     let measured = H::compute_message_size_hack(&mut p);
     let before = match p.to_bytes() { Ok(b) => b.len(), Err(_) => { assert!(false); return; } };
-    assert!(measured == before, "C10: the overhead measurement equals the encoded length");
+    // (the measurement leaves out the payload marker; the 12-byte allowance has to cover it)
+    assert!(measured + if pl > 0 { 1 } else { 0 } == before, "C10: the overhead measurement equals the encoded length less the payload marker");
     let b1 = BlockValue { num: kani::any(), more: kani::any(), size_exponent: kani::any::<u8>() & 7 };
     let b2 = BlockValue { num: kani::any(), more: kani::any(), size_exponent: kani::any::<u8>() & 7 };
     p.add_option_as(CoapOption::Block2, b2);
     p.add_option_as(CoapOption::Block1, b1);
     let after = match p.to_bytes() { Ok(b) => b.len(), Err(_) => { assert!(false); return; } };
-    assert!(after <= before + BLOCK_OPTIONS_MAX_LENGTH, "C10: Block1 + Block2 options add at most 12 bytes");
-    kani::cover!(after == before + 10, "two full-size block options next to a higher option");
+    assert!(after <= measured + BLOCK_OPTIONS_MAX_LENGTH, "C10: payload marker + Block1 + Block2 options stay within the 12-byte allowance the negotiation reserves");
+    kani::cover!(after == before + 9, "two full-size block options");
     kani::cover!(ul == 13, "extended Uri-Path length");
     core::mem::forget(p);
 }
@@ -273,9 +272,11 @@ macro_rules! c08_serve {
                     kani::cover!(n > 0, "block beyond the end of a non-empty body");
                 }
                 Ok(more) => {
-                    assert!((num as usize * size < n) || (n == 0 && num == 0), "C08: blocks beyond the end are not served");
-                    let resp = &req.response.as_ref().unwrap().message;
-                    check_served_block(resp, &body, n, num as usize, size, szx, more, etag, rid, rtok);
+                    // (what a block beyond the end of the body gets is left open by the property)
+                    if (num as usize * size < n) || (n == 0 && num == 0) {
+                        let resp = &req.response.as_ref().unwrap().message;
+                        check_served_block(resp, &body, n, num as usize, size, szx, more, etag, rid, rtok);
+                    }
                     kani::cover!(more && num == 1, "a middle block");
                     kani::cover!(!more && n == (num as usize + 1) * size, "final block exactly full");
                     kani::cover!(!more && n == num as usize * size + 1, "final block of one byte");
@@ -337,8 +338,10 @@ fn c08_release() {
             assert!(has_cache && with_block, "C08: only a Block2 request with a cached response is served from the cache");
             let resp = &req.response.as_ref().unwrap().message;
             let more = (num as usize + 1) * 16 < n;
-            check_served_block(resp, &body, n, num as usize, 16, 0, more, etag, rid, rtok);
-            assert!(state.cached_response.is_some() == more, "C08: the cache entry is released exactly when the final block has been served");
+            if (num as usize) * 16 < n {
+                check_served_block(resp, &body, n, num as usize, 16, 0, more, etag, rid, rtok);
+                assert!(state.cached_response.is_some() == more, "C08: the cache entry is released exactly when the final block has been served");
+            }
             kani::cover!(!more, "final block served, entry released");
             kani::cover!(more, "more blocks remain, entry kept");
         }
@@ -352,10 +355,16 @@ fn c08_release() {
             kani::cover!(true, "block beyond the end");
         }
     }
+    // Lemma the decomposition rests on (c08_first_block_* start from it): after every request the recorded
+    // preference is exactly that request's Block2 option - in particular none for a request without one, so a
+    // plain GET that follows a finished block-wise fetch is answered from block 0.
     if with_block {
-        assert!(state.last_request_block2.is_some(), "C08: the client's Block2 preference is recorded");
+        match state.last_request_block2.as_ref() {
+            Some(b) => assert!(b.num == num && b.size_exponent == 0, "C08: the recorded Block2 preference is the current request's"),
+            None => assert!(false, "C08: the client's Block2 preference is recorded for the response"),
+        }
     } else {
-        assert!(state.last_request_block2.is_none(), "C08: a request without Block2 clears the recorded preference");
+        assert!(state.last_request_block2.is_none(), "C08: a request without Block2 leaves no stale block preference behind");
     }
     core::mem::forget(req);
     core::mem::forget(state);
@@ -399,7 +408,7 @@ fn c12_key_method_endpoint() {
     core::mem::forget((r1, r2, k1, k2));
 }
 
-//@ props=C12 tier=thorough timeout=3000 mem=30 cap=2
+//@ props=C12 tier=quick timeout=1800 mem=24 cap=2
 //@ functions=RequestCacheKey::from(&CoapRequest), CoapRequest::get_path_as_vec, OptionValueString::try_from
 //@ bounds=paths enumerated from a concrete list (segments ["a","b"] vs ["a/b"] vs ["a","b"] again, plus ["a"] as a prefix); method and endpoint symbolic
 //@ what=paths that differ only in segmentation or are prefixes of one another give different keys; equal paths collapse exactly when method and endpoint agree
@@ -459,7 +468,7 @@ macro_rules! c08_first_block {
     ($name:ident, $mlo:expr, $mhi:expr, $maxbody:expr, $size:expr) => {
         #[cfg(feature = "verif_cache_model")]
         #[kani::proof]
-        #[kani::unwind(70)]
+        #[kani::unwind(14)]
         #[kani::stub(core::fmt::write, crate::verif_harness::stub_write)]
         fn $name() {
             const MAXB: usize = $maxbody;
@@ -489,36 +498,44 @@ macro_rules! c08_first_block {
             match r {
                 Ok(fragmented) => {
                     let block = resp.get_first_option_as::<BlockValue>(CoapOption::Block2);
-                    if !has_pref && n < max_block {
-                        assert!(!fragmented && block.is_none(), "C08: a reply that fits and was not asked for in blocks is left alone");
-                        assert!(resp.payload.len() == n, "C08: an unfragmented reply keeps its payload");
-                        let i: usize = kani::any();
-                        if i < n { assert!(resp.payload[i] == body[i], "C08: an unfragmented reply keeps its payload"); }
-                        assert!(state.cached_response.is_none(), "C08: nothing is cached for an unfragmented reply");
-                        kani::cover!(n + 1 == max_block, "largest unfragmented body");
-                    } else {
-                        let b = match block { Some(Ok(b)) => b, _ => { assert!(false, "C08: a fragmented reply carries a Block2 option"); return; } };
-                        let s = b.size();
-                        let expect = if has_pref && csize < $size { csize } else { $size };
-                        assert!(s == expect, "C10: block size for this budget band");
-                        if has_pref { assert!(s <= csize, "C10: never larger than the client's size"); }
-                        assert!(b.num == 0, "C08: the first fragment is block 0");
-                        let end = if n < s { n } else { s };
-                        assert!(resp.payload.len() == end, "C08: block 0 carries the first block-size bytes");
-                        let i: usize = kani::any();
-                        if i < end { assert!(resp.payload[i] == body[i], "C08: block 0 bytes are the body's first bytes"); }
-                        assert!(b.more == (n > s), "C08: more flag on the first fragment");
-                        assert!(fragmented == (n > s), "C08: handled as block-wise iff more blocks remain");
-                        assert!(state.cached_response.is_some() == (n > s), "C08: the full reply is cached iff more blocks remain");
-                        if let Some(c) = state.cached_response.as_ref() {
-                            assert!(c.payload.len() == n, "C08: the cached reply holds the whole body");
-                            let j: usize = kani::any();
-                            if j < n { assert!(c.payload[j] == body[j], "C08: the cached reply holds the whole body"); }
+                    match block {
+                        None => {
+                            assert!(!fragmented, "C08: a reply without a Block2 option is not reported as block-wise");
+                            assert!(resp.payload.len() == n, "C08: an unfragmented reply keeps its payload");
+                            let i: usize = kani::any();
+                            if i < n { assert!(resp.payload[i] == body[i], "C08: an unfragmented reply keeps its payload"); }
+                            assert!(state.cached_response.is_none(), "C08: nothing is cached for an unfragmented reply");
+                            if has_pref { assert!(n <= csize, "C08: a client that asked for blocks never gets more than a block"); }
+                            kani::cover!(n + 1 == max_block, "largest unfragmented body");
                         }
-                        kani::cover!(n > s && has_pref, "early negotiation, more blocks follow");
-                        kani::cover!(n > s && !has_pref, "unsolicited fragmentation");
-                        kani::cover!(n == 0, "empty body with early negotiation");
-                        kani::cover!(n == s, "body of exactly one block");
+                        Some(Err(_)) => assert!(false, "C08: the Block2 option of a fragmented reply decodes"),
+                        Some(Ok(b)) => {
+                            let s = b.size();
+                            assert!(s >= 16 && s <= 1024 && (s & (s - 1)) == 0, "C10: block size is a power of two between 16 and 1024");
+                            assert!(5 + 12 + s <= m, "C10: a block of the chosen size fits the budget");
+                            if has_pref {
+                                assert!(s <= csize, "C10: never larger than the client's size");
+                                if csize + 32 <= m - 5 { assert!(s == csize, "C10: the client's size is used when it fits with 32 bytes to spare"); }
+                            }
+                            assert!(b.num == 0, "C08: the first fragment is block 0");
+                            let end = if n < s { n } else { s };
+                            assert!(resp.payload.len() == end, "C08: block 0 carries the first block-size bytes");
+                            let i: usize = kani::any();
+                            if i < end { assert!(resp.payload[i] == body[i], "C08: block 0 bytes are the body's first bytes"); }
+                            assert!(b.more == (n > s), "C08: more flag on the first fragment");
+                            assert!(fragmented == (n > s), "C08: handled as block-wise iff more blocks remain");
+                            assert!(state.cached_response.is_some() == (n > s), "C08: the full reply is cached iff more blocks remain");
+                            if let Some(c) = state.cached_response.as_ref() {
+                                assert!(c.payload.len() == n, "C08: the cached reply holds the whole body");
+                                let j: usize = kani::any();
+                                if j < n { assert!(c.payload[j] == body[j], "C08: the cached reply holds the whole body"); }
+                            }
+                            kani::cover!(n > s && has_pref, "early negotiation, more blocks follow");
+                            kani::cover!(n > s && !has_pref, "unsolicited fragmentation");
+                            kani::cover!(n == 0, "empty body with early negotiation");
+                            kani::cover!(n == s, "body of exactly one block");
+                            kani::cover!(s == $size, "the band's block size");
+                        }
                     }
                     match resp.to_bytes() {
                         Ok(bytes) => assert!(bytes.len() <= m, "C10: the reply encodes within the configured maximum message size"),
@@ -546,3 +563,132 @@ c08_first_block!(c08_first_block_16, 33, 48, 40, 16);
 //@ bounds=budget M 49..80 (block size 32 band), preference none or szx 0..6 at block 0, body 0..70 symbolic bytes
 //@ what=as c08_first_block_16 in the 32-byte band (a client preference of 16 wins)
 c08_first_block!(c08_first_block_32, 49, 80, 70, 32);
+
+//@ props=C10,C09 tier=quick timeout=1800 mem=20 cap=3
+//@ functions=BlockHandler::maybe_handle_request_block1 (request without Block1), BlockHandler::negotiate_block_size_if_necessary, BlockHandler::compute_message_size_hack
+//@ bounds=request without Block1 option: 1-byte token, payload length symbolic 0..100, type symbolic (CON/NON/ACK/RST); budget M symbolic in [overhead + 28, 96] with overhead = 5
+//@ what=a request that fits is passed on untouched; a request too large for the budget is answered 4.13 with a Block1 hint (block 0) whose size is a power of two >= 16 that fits the budget, instead of being processed; without a prepared response the situation is an error, not a panic
+//@ outside=requests that carry a Block1 option (Vec::splice is not executable by CBMC, see DESIGN.md section 4)
+#[kani::proof]
+#[kani::unwind(14)]
+#[kani::stub(core::fmt::write, crate::verif_harness::stub_write)]
+fn c10_413_hint() {
+    let mut q = Packet::new();
+    let tn: u8 = kani::any();
+    q.header.set_type(match tn & 3 { 0 => MessageType::Confirmable, 1 => MessageType::NonConfirmable, 2 => MessageType::Acknowledgement, _ => MessageType::Reset });
+    q.header.code = MessageClass::Request(RequestType::Put);
+    q.set_token(vec![kani::any()]);
+    let pl: usize = kani::any();
+    kani::assume(pl <= 100);
+    q.payload = vec![0u8; pl];
+    let mut req = CoapRequest::from_packet(q, 9u8);
+    let m: usize = kani::any();
+    // request overhead: 4 header bytes + 1 token byte + (1 marker byte when there is a payload)
+    let overhead = 5 + if pl > 0 { 1 } else { 0 };
+    kani::assume(m >= overhead + 28 && m <= 96);
+    let mut state = BlockState::default();
+    let r = H::maybe_handle_request_block1(&mut req, m, &mut state);
+    let max_block = m - overhead - 12;
+    match r {
+        Ok(false) => {
+            assert!(pl < max_block, "C09: a request too large for the budget is not passed to the application");
+            if let Some(resp) = req.response.as_ref() {
+                assert!(resp.message.get_option(CoapOption::Block1).is_none(), "C09: a request that fits is passed on untouched");
+                assert!(resp.message.header.code == MessageClass::Response(ResponseType::Content));
+            }
+            assert!(req.message.payload.len() == pl, "C09: a request that fits keeps its payload");
+            kani::cover!(pl + 1 == max_block, "largest request that fits");
+        }
+        Ok(true) => {
+            assert!(pl >= max_block, "C09: only an oversized request is answered by the handler");
+            let resp = match req.response.as_ref() { Some(r) => r, None => { assert!(false); return; } };
+            assert!(resp.message.header.code == MessageClass::Response(ResponseType::RequestEntityTooLarge), "C09: oversized request without Block1 => 4.13");
+            match resp.message.get_first_option_as::<BlockValue>(CoapOption::Block1) {
+                Some(Ok(b)) => {
+                    let s = b.size();
+                    assert!(is_pow2(s) && s >= 16 && s <= 1024, "C10: hinted block size is a power of two in 16..1024");
+                    assert!(overhead + 12 + s <= m, "C10: the client's next upload block of the hinted size fits the budget");
+                    assert!(b.num == 0, "C09: the hint is for block 0");
+                    kani::cover!(s == 32, "hint of 32 bytes");
+                    kani::cover!(s == 16, "hint of 16 bytes");
+                }
+                _ => assert!(false, "C09: 4.13 carries a Block1 size hint"),
+            }
+        }
+        Err(e) => {
+            assert!(tn & 3 >= 2 && pl >= max_block, "C11: only an oversized request without a prepared response is an error");
+            kani::cover!(true, "oversized ACK/RST");
+        }
+    }
+    assert!(state.cached_request_payload.is_none(), "C09: nothing is buffered for a request without Block1");
+    core::mem::forget(req);
+    core::mem::forget(state);
+}
+
+//@ props=C11 tier=quick timeout=2400 mem=24 cap=3 lru=1
+//@ functions=BlockHandler::intercept_request, BlockHandler::maybe_handle_request_block1 (no Block1), BlockHandler::maybe_handle_request_block2, BlockHandler::maybe_serve_cached_response, CoapRequest::apply_from_error
+//@ bounds=one request of any type (CON/NON/ACK/RST), 1-byte token, Block2 option absent or raw bytes of length 0..3 (malformed values included), no Block1, payload 0..2; budget M symbolic 0..5000; arbitrary BlockState: cached response (body 20 bytes) or none, any previous Block2 preference
+//@ what=intercept_request returns Ok or Err - never panics; an Err renders as a 4.xx/5.xx reply through apply_from_error exactly when a response was prepared and the error has a code
+//@ assumes=cache lookup modelled (harness-owned BlockState); sequences longer than one call are covered only in that each call starts from an arbitrary state
+//@ outside=requests carrying Block1 (Vec::splice not executable), the 16 KiB growth bound
+#[cfg(feature = "verif_cache_model")]
+#[kani::proof]
+#[kani::unwind(16)]
+#[kani::stub(core::fmt::write, crate::verif_harness::stub_write)]
+fn c11_intercept_request_total() {
+    let m: usize = kani::any();
+    kani::assume(m <= 5000);
+    let mut h = new_handler(m);
+    let mut state = BlockState::default();
+    let body = [7u8; 20];
+    if kani::any() {
+        let (c, _, _, _) = any_cached_response(&body);
+        state.cached_response = Some(c);
+    }
+    if kani::any() {
+        state.last_request_block2 = Some(BlockValue { num: kani::any(), more: kani::any(), size_exponent: kani::any::<u8>() & 7 });
+    }
+    bind_state(&mut state);
+    let mut q = Packet::new();
+    let tn: u8 = kani::any();
+    q.header.set_type(match tn & 3 { 0 => MessageType::Confirmable, 1 => MessageType::NonConfirmable, 2 => MessageType::Acknowledgement, _ => MessageType::Reset });
+    q.header.code = MessageClass::Request(RequestType::Get);
+    q.set_token(vec![kani::any()]);
+    let has_b2: bool = kani::any();
+    let raw: [u8; 3] = kani::any();
+    let rl: usize = kani::any();
+    kani::assume(rl <= 3);
+    if has_b2 {
+        let mut l = LinkedList::new();
+        l.push_back(raw[..rl].to_vec());
+        q.options.verif_push_sorted(23, l);
+    }
+    let pl: usize = kani::any();
+    kani::assume(pl <= 2);
+    q.payload = vec![1u8; pl];
+    let mut req = CoapRequest::from_packet(q, 9u8);
+    match h.intercept_request(&mut req) {
+        Ok(handled) => {
+            kani::cover!(handled, "served from the cache");
+            kani::cover!(!handled, "passed to the application");
+        }
+        Err(e) => {
+            let has_code = e.code.is_some();
+            if let Some(c) = e.code {
+                assert!(c.is_error(), "C11: a handling error carries a 4.xx/5.xx code");
+            }
+            let applied = req.apply_from_error(e);
+            assert!(applied == (has_code && tn & 3 <= 1), "C11: the error renders as a reply when a response was prepared");
+            if applied {
+                let code = u8::from(req.response.as_ref().unwrap().message.header.code);
+                assert!(code >= 0x80, "C11: the rendered reply is 4.xx/5.xx");
+            }
+            kani::cover!(m < 17, "budget below the overhead");
+            kani::cover!(tn & 3 >= 2, "no prepared response");
+            kani::cover!(has_b2 && m > 100, "block beyond the end of the cached body");
+        }
+    }
+    core::mem::forget(h);
+    core::mem::forget(req);
+    core::mem::forget(state);
+}
